@@ -7,7 +7,8 @@
   (`wfDrops`); everything else holds for arbitrary event sequences, nested, re-entrant and
   non-LIFO enters included.
 -/
-import TT.Lemmas.RecvSim
+import TT.Lemmas.RecvDefs
+import TT.Lemmas.RecvStack
 
 namespace TT
 
@@ -37,6 +38,159 @@ def wfDrops (s : Sys) : List HOp → Bool
 /-- Calls made between two host states (newest first). -/
 def newCalls (before after : Host) : List HostCall := after.log.take (after.log.length - before.log.length)
 
+/-! ### Support: the stack invariant along histories -/
+
+theorem baseAfter_ev (B : List (Nat × Bool)) (e : Event) (ops : List HOp) :
+    baseAfter B (.ev e :: ops) = baseAfter B ops := rfl
+
+theorem SInv_step (B : List (Nat × Bool)) (s : Sys) (op : HOp) (ops : List HOp) (hi : SInv B s.σ)
+    (hwf : wfDrops s (op :: ops) = true) :
+    ∃ B', baseAfter B (op :: ops) = baseAfter B' ops ∧ SInv B' (s.step op).σ ∧
+      wfDrops (s.step op) ops = true := by
+  simp only [wfDrops, Bool.and_eq_true] at hwf
+  obtain ⟨hw1, hw2⟩ := hwf
+  cases op with
+  | ev e =>
+    refine ⟨B, rfl, ?_, hw2⟩
+    simp only [Sys.step]
+    apply tryReceive_inv B s.σ e hi
+    intro id d he hd hrc
+    subst he
+    simp only [lastHandle, hd, hrc, AMap.contains] at hw1
+    cases hg : s.σ.r.entered.get id with
+    | none => rfl
+    | some c => simp [hg] at hw1
+  | persist mode =>
+    obtain ⟨f1, f2⟩ := Inv.after_finalize hi []
+    obtain ⟨g1, g2⟩ := Inv.fin_stack hi []
+    cases mode with
+    | keep =>
+      refine ⟨B, rfl, ?_, hw2⟩
+      simp only [Sys.step, persist]
+      obtain ⟨r1, r2, _, _, r5, r6⟩ := restore_props (persistMeta s.σ) s.σ.r.spans s.σ.r.loc
+        { s.σ.w with host := finalize s.σ.r.entered [] s.σ.r.loc s.σ.w.host }
+      unfold SInv
+      rw [r1, r2]
+      exact f1.host_eq r6 (Nat.le_of_eq r5.symm)
+    | lose =>
+      refine ⟨B, rfl, ?_, hw2⟩
+      simp only [Sys.step, persist]
+      obtain ⟨r1, r2, _, _, r5, r6⟩ := restore_props (persistMeta s.σ) s.σ.r.spans []
+        { s.σ.w with host := finalize s.σ.r.entered [] s.σ.r.loc s.σ.w.host }
+      unfold SInv
+      rw [r1, r2]
+      exact f2.host_eq r6 (Nat.le_of_eq r5.symm)
+    | loseNew =>
+      refine ⟨[], rfl, ?_, hw2⟩
+      simp only [Sys.step, persist]
+      obtain ⟨r1, r2, _, _, r5, r6⟩ := restore_props (persistMeta s.σ) s.σ.r.spans []
+        { s.σ.w with host := ({} : Host) }
+      unfold SInv
+      rw [r1, r2]
+      have h0 : Inv [] ({} : Host) [] [] := by
+        refine ⟨⟨[], rfl, ?_, ?_⟩, ?_, ?_, ?_, ?_, ?_⟩
+        · intro g h hg; cases hg
+        · intro h _; rfl
+        · intro e he; cases he
+        · intro g h hg; cases hg
+        · intro g h hg; cases hg
+        · intro g₁ g₂ h hg; cases hg
+        · intro g _; rfl
+      exact h0.host_eq r6 (Nat.le_of_eq r5.symm)
+  | discard =>
+    refine ⟨B, rfl, ?_, hw2⟩
+    obtain ⟨f1, f2⟩ := Inv.after_finalize hi s.σ.r.uncommitted
+    simp only [Sys.step, dropR]
+    obtain ⟨r1, r2, _, _, r5, r6⟩ := restore_props s.lastPm s.lastPs []
+      { s.σ.w with host := finalize s.σ.r.entered s.σ.r.uncommitted s.σ.r.loc s.σ.w.host }
+    unfold SInv
+    rw [r1, r2]
+    exact f2.host_eq r6 (Nat.le_of_eq r5.symm)
+
+theorem SInv_run (ops : List HOp) : ∀ (B : List (Nat × Bool)) (s : Sys), SInv B s.σ →
+    wfDrops s ops = true → SInv (baseAfter B ops) (runHistory s ops).σ := by
+  induction ops with
+  | nil => intro B s hi _; exact hi
+  | cons op ops ih =>
+    intro B s hi hwf
+    obtain ⟨B', hb, hi', hwf'⟩ := SInv_step B s op ops hi hwf
+    rw [hb]
+    exact ih B' (s.step op) hi' hwf'
+
+theorem SU_run (ops : List HOp) : ∀ (s : Sys), SU s.σ → SU (runHistory s ops).σ := by
+  induction ops with
+  | nil => intro s hu; exact hu
+  | cons op ops ih =>
+    intro s hu
+    apply ih (s.step op)
+    cases op with
+    | ev e => exact tryReceive_uinv s.σ e hu
+    | persist mode =>
+      simp only [Sys.step]
+      unfold SU
+      rw [(restore_props _ _ _ _).2.2.1]
+      exact ⟨List.nodup_nil, fun g hg => by cases hg⟩
+    | discard =>
+      simp only [Sys.step]
+      unfold SU
+      rw [(restore_props _ _ _ _).2.2.1]
+      exact ⟨List.nodup_nil, fun g hg => by cases hg⟩
+
+theorem tryReceive_unc_other (σ : Sigma) (e : Event)
+    (h1 : ∀ id p mt vs, e ≠ .newSpan id p mt vs) (h2 : ∀ id, e ≠ .dropped id) :
+    (tryReceive σ e).state.r.uncommitted = σ.r.uncommitted := by
+  cases e with
+  | newCallSite id d =>
+    simp only [tryReceive, Res.state]
+    exact (onNewCallSite_props σ id d).2.2.1
+  | newSpan id parent mt values => exact absurd rfl (h1 _ _ _ _)
+  | followsFrom id f =>
+    simp only [tryReceive]
+    split
+    · rfl
+    · split
+      · rfl
+      · split <;> rfl
+  | entered id =>
+    simp only [tryReceive]
+    split
+    · rfl
+    · rfl
+    · split
+      · rfl
+      · split <;> rfl
+  | exited id =>
+    simp only [tryReceive]
+    split <;> rfl
+  | cloned id =>
+    simp only [tryReceive]
+    split <;> rfl
+  | dropped id => exact absurd rfl (h2 _)
+  | valuesRecorded id values =>
+    simp only [tryReceive]
+    split
+    · rfl
+    · split
+      · rfl
+      · refine vr_outer (fun σ' => σ'.r.uncommitted = σ.r.uncommitted) id values _ ?_ ?_
+        · split
+          · rfl
+          · split
+            · rfl
+            · split
+              · rfl
+              · split <;> rfl
+        · intro σ' d h; exact h
+  | newEvent mt parent values =>
+    simp only [tryReceive]
+    split
+    · rfl
+    · split
+      · rfl
+      · split
+        · rfl
+        · split <;> rfl
+
 /-- Whenever a receiver is persisted or dropped — after any history, at any prefix of the stream,
     with arbitrarily nested or re-entrant enters — the host's span stack is what it was before
     the chain processed anything. -/
@@ -45,12 +199,29 @@ theorem C04_stack_restored (w₀ : World) (hf : HostFresh w₀.host) (ops : List
     let s := runHistory (Sys.init w₀) ops
     (persist s.σ).2.2.host.stack = baseAfter w₀.host.stack ops ∧
     (dropR s.σ).host.stack = baseAfter w₀.host.stack ops := by
-  sorry
+  intro s
+  have h0 : SInv w₀.host.stack (Sys.init w₀).σ := by
+    refine ⟨⟨[], rfl, ?_, ?_⟩, hf, ?_, ?_, ?_, ?_⟩
+    · intro g h hg; cases hg
+    · intro h _; rfl
+    · intro g h hg; cases hg
+    · intro g h hg; cases hg
+    · intro g₁ g₂ h hg; cases hg
+    · intro g _; rfl
+  have hi : SInv (baseAfter w₀.host.stack ops) s.σ := SInv_run ops _ _ h0 hwf
+  exact ⟨(Inv.fin_stack hi []).1, (Inv.fin_stack hi s.σ.r.uncommitted).1⟩
 
 /-- Persisting closes nothing: it only force-exits. -/
 theorem C04_persist_closes_nothing (σ : Sigma) :
     ∀ c ∈ newCalls σ.w.host (persist σ).2.2.host, ∃ h, c = .exit h := by
-  sorry
+  obtain ⟨p, h1, h2⟩ := finExit_fold_log σ.r.loc σ.r.entered σ.w.host
+  have : newCalls σ.w.host (persist σ).2.2.host = p := by
+    unfold newCalls
+    apply newCalls_of_log
+    simp only [persist, finalize_eq, List.foldl_nil]
+    exact h1
+  rw [this]
+  exact h2
 
 /-- Dropping without persisting closes exactly the host spans of the uncommitted guest spans,
     once each, and nothing else. -/
@@ -58,26 +229,102 @@ theorem C04_drop_closes_uncommitted (σ : Sigma) :
     (newCalls σ.w.host (dropR σ).host).reverse.filterMap (fun c => match c with | .tryClose h => some h | _ => none)
       = σ.r.uncommitted.filterMap (σ.r.loc.get ·) ∧
     ∀ c ∈ newCalls σ.w.host (dropR σ).host, (∃ h, c = .exit h) ∨ (∃ h, c = .tryClose h) := by
-  sorry
+  obtain ⟨p, h1, h2⟩ := finExit_fold_log σ.r.loc σ.r.entered σ.w.host
+  have : newCalls σ.w.host (dropR σ).host
+      = ((σ.r.uncommitted.filterMap (σ.r.loc.get ·)).map HostCall.tryClose).reverse ++ p := by
+    unfold newCalls
+    apply newCalls_of_log
+    simp only [dropR, finalize_eq, finClose_fold_log, h1, List.append_assoc]
+  rw [this]
+  constructor
+  · have hp : p.reverse.filterMap (fun c => match c with | .tryClose h => some h | _ => none) = [] := by
+      rw [List.filterMap_eq_nil_iff]
+      intro c hc
+      obtain ⟨h, rfl⟩ := h2 c (List.mem_reverse.mp hc)
+      rfl
+    rw [List.reverse_append, List.filterMap_append, hp, List.reverse_reverse, List.nil_append,
+      List.filterMap_map]
+    clear this h1 h2 hp
+    induction σ.r.uncommitted.filterMap (σ.r.loc.get ·) with
+    | nil => rfl
+    | cons x xs ih => simp only [List.filterMap_cons, Function.comp]; rw [ih]
+  · intro c hc
+    rcases List.mem_append.mp hc with hc | hc
+    · right
+      obtain ⟨h, _, rfl⟩ := List.mem_map.mp (List.mem_reverse.mp hc)
+      exact ⟨h, rfl⟩
+    · left; exact h2 c hc
 
 /-- The uncommitted set is exactly: born in this lifetime and still alive. It starts empty in
     every lifetime, grows by the id of an accepted `new_span`, shrinks by the id whose last handle
     is dropped, and is otherwise untouched; its members are alive and listed once. -/
 theorem C04_uncommitted_starts_empty (pm : PersistedMeta) (ps : PersistedSpans) (loc : AMap Nat Nat) (w : World) :
     (restore pm ps loc w).r.uncommitted = [] ∧ (Sys.init w).σ.r.uncommitted = [] := by
-  sorry
+  exact ⟨(restore_props pm ps loc w).2.2.1, rfl⟩
 
 theorem C04_uncommitted_step (σ σ' : Sigma) (e : Event) (h : tryReceive σ e = .ok σ') :
     σ'.r.uncommitted = match e with
       | .newSpan id _ _ _ => ASet.insert σ.r.uncommitted id
       | .dropped id => if lastHandle σ id then ASet.erase σ.r.uncommitted id else σ.r.uncommitted
       | _ => σ.r.uncommitted := by
-  sorry
+  cases e with
+  | newSpan id parent mt values =>
+    simp only [tryReceive] at h
+    split at h
+    · cases h
+    · split at h
+      · injection h with h; subst h; rfl
+      · split at h
+        · cases h
+        · split at h
+          · cases h
+          · cases h
+          · injection h with h; subst h; rfl
+  | dropped id =>
+    simp only [tryReceive] at h
+    split at h
+    · cases h
+    · rename_i d hd
+      simp only [lastHandle, hd]
+      split at h
+      · cases h
+      · rename_i h0
+        split at h
+        · rename_i h1
+          have : (d.refCount == 1) = false := by simp; omega
+          injection h with h; subst h
+          simp [this]
+        · rename_i h1
+          have : (d.refCount == 1) = true := by simp; omega
+          split at h <;> (injection h with h; subst h; simp [this])
+  | newCallSite id d =>
+    have := tryReceive_unc_other σ (.newCallSite id d) (by intro _ _ _ _ hh; cases hh) (by intro _ hh; cases hh)
+    rw [h] at this; exact this
+  | followsFrom id f =>
+    have := tryReceive_unc_other σ (.followsFrom id f) (by intro _ _ _ _ hh; cases hh) (by intro _ hh; cases hh)
+    rw [h] at this; exact this
+  | entered id =>
+    have := tryReceive_unc_other σ (.entered id) (by intro _ _ _ _ hh; cases hh) (by intro _ hh; cases hh)
+    rw [h] at this; exact this
+  | exited id =>
+    have := tryReceive_unc_other σ (.exited id) (by intro _ _ _ _ hh; cases hh) (by intro _ hh; cases hh)
+    rw [h] at this; exact this
+  | cloned id =>
+    have := tryReceive_unc_other σ (.cloned id) (by intro _ _ _ _ hh; cases hh) (by intro _ hh; cases hh)
+    rw [h] at this; exact this
+  | valuesRecorded id values =>
+    have := tryReceive_unc_other σ (.valuesRecorded id values) (by intro _ _ _ _ hh; cases hh) (by intro _ hh; cases hh)
+    rw [h] at this; exact this
+  | newEvent mt parent values =>
+    have := tryReceive_unc_other σ (.newEvent mt parent values) (by intro _ _ _ _ hh; cases hh) (by intro _ hh; cases hh)
+    rw [h] at this; exact this
 
 theorem C04_uncommitted_alive_once (w₀ : World) (ops : List HOp) :
     let s := runHistory (Sys.init w₀) ops
     s.σ.r.uncommitted.Nodup ∧ ∀ g ∈ s.σ.r.uncommitted, s.σ.r.spans.contains g = true := by
-  sorry
+  intro s
+  have h0 : SU (Sys.init w₀).σ := ⟨List.nodup_nil, fun g hg => by cases hg⟩
+  exact SU_run ops _ h0
 
 /-- Non-vacuity: re-entrant and nested enters on top of a pre-existing host span, then abort. -/
 example :
